@@ -374,6 +374,12 @@ def adversarial_step(rng, g: gen.DocGen, doc: Node, docs) -> Step:
                                                  rng.random() < 0.7)
                     except ValueError:
                         pass
+                if rng.random() < 0.25 and rg.end_index - rg.start_index >= 2:
+                    first, last = rg.parent.child(rg.start_index), rg.parent.child(rg.end_index - 1)
+                    if not first.is_leaf and not last.is_leaf:
+                        # a gap whose ends sit at equal depth inside two different siblings: not a flat range
+                        return ReplaceAroundStep(rg.start, rg.end, rg.start + 1, rg.end - 1,
+                                                 Slice(Fragment.from_(w), 0, 0), 1, rng.random() < 0.3)
                 if rng.random() < 0.75:
                     return ReplaceAroundStep(rg.start, rg.end, rg.start, rg.end, Slice(Fragment.from_(w), 0, 0), 1,
                                              rng.random() < 0.7)
